@@ -16,6 +16,10 @@
 #                    (Int->Float, String->Int) as element, key or value (push, push_at, set, append, mem, rem, get):
 #                    insertions must raise (ClassError/TypeError/ValueError), queries must not claim success, and
 #                    the container still has its two items with their values.
+#                    Last, objects that cannot be iterated (blank objects of the exported types without Iter whose own
+#                    methods the loops cannot reach; a real Int, Float, String, closed File, Function and an object of a
+#                    run-time type) given to foreach and to assign / concat / eq / cmp of Array, List, Tuple, Table, Tree:
+#                    ClassError (TypeError/ValueError), the loop body never runs, the receiver keeps its two items.
 #   type-null        NULL as the receiver of each of the 81 public functions of Cello.h that take object arguments, and
 #                    NULL in every further object position with a valid receiver of every kind (Array/List of Int,
 #                    Table/Tree Int->Int, heap String, Int, Float, Ref, Box, Tuple, Range, closed File, Mutex, Function)
@@ -32,6 +36,14 @@ def T(name, variant, *args, **kw):
     return d
 
 PARTS = {
+  # C09: cmp/eq/neq/lt/gt/le/ge/hash over all ordered pairs (and transitivity over all triples) of 93 type objects:
+  # the 71 exported ones plus statically declared and run-time types whose NAMES are prefixes of one another
+  # (E/E1/E10/E100/E1000, Net/NetE/NetError/NetErrorT/NetErrorTimeout, P/Pr/Pri/Print, Typ/Type, In/Int/Int64):
+  # antisymmetry, agreement with the order of the names, predicates == cmp, eq => equal hash.
+  'C09': {
+    'quick': [T('typecmp', 'base', 'mode=typecmp'), T('typecmp-asan', 'asan', 'mode=typecmp', 'count=0')],
+    'thorough': [T('typecmp', 'base', 'mode=typecmp'), T('typecmp-asan', 'asan', 'mode=typecmp', 'count=0')],
+  },
   'C12': {
     'quick': [
       T('fail-cells', 'base', 'mode=matrix', 'only=fail', 'warm=1'),
